@@ -280,24 +280,42 @@ Qed.
 Lemma gen_no_xml_space : consults_xml_space = false. Proof. reflexivity. Qed.
 
 (* ---------------------------------------------------------------------------------------------- *)
-(* xsl:number level="any": without a from pattern the count is the number of count-matching nodes at or
-   before the current node, whatever the physical shape *)
-Lemma number_chain_no_from : forall r d, (forall x, In x r -> w_from x = false) ->
-  number_chain d r = length (filter w_count r).
+(* xsl:number level="any" *)
+
+(* (1) pinned configuration (from only on parent moves): without a from pattern the count is the number of
+   count-matching nodes at or before the current node, whatever the physical shape *)
+Lemma number_chain_no_from : forall every r d, (forall x, In x r -> w_from x = false) ->
+  number_chain_cfg every d r = length (filter w_count r).
 Proof.
-  intros r. induction r as [|y r IH]; intros d H; cbn [number_chain filter]; [reflexivity|].
+  intros every r. induction r as [|y r IH]; intros d H; cbn [number_chain_cfg filter]; [reflexivity|].
   rewrite (H y (or_introl eq_refl)). rewrite andb_false_r.
+  replace (if every then false else false) with false by (destruct every; reflexivity).
   destruct (w_count y); cbn [length]; rewrite IH; auto; intros x Hx; apply H; right; exact Hx.
 Qed.
 
-Lemma number_any_no_from : forall l, (forall x, In x l -> w_from x = false) ->
-  number_any l = length (filter w_count l).
+Lemma number_target_no_from : forall l, (forall x, In x l -> w_from x = false) ->
+  match number_target l with Some (x :: r) => S (length (filter w_count r)) | _ => 0 end = length (filter w_count l).
 Proof.
-  intros l. unfold number_any. induction l as [|x r IH]; intros H; [reflexivity|].
+  intros l. induction l as [|x r IH]; intros H; [reflexivity|].
   cbn [number_target filter]. rewrite (H x (or_introl eq_refl)).
+  destruct (w_count x) eqn:C; [reflexivity|]. apply IH. intros y Hy. apply H. right. exact Hy.
+Qed.
+
+Lemma number_any_no_from : forall every sf l, (forall x, In x l -> w_from x = false) ->
+  number_any_cfg every sf l = length (filter w_count l).
+Proof.
+  intros every sf l H. unfold number_any_cfg. destruct l as [|x r]; [reflexivity|].
+  cbn [number_target_cfg filter]. rewrite (H x (or_introl eq_refl)). rewrite andb_false_r.
+  assert (Hr : forall y, In y r -> w_from y = false) by (intros y Hy; apply H; right; exact Hy).
   destruct (w_count x) eqn:C.
-  - cbn [length]. rewrite number_chain_no_from; auto. intros y Hy. apply H. right. exact Hy.
-  - apply IH. intros y Hy. apply H. right. exact Hy.
+  - cbn [length]. rewrite number_chain_no_from; auto.
+  - rewrite <- (number_target_no_from r Hr). destruct (number_target r) as [[|y t]|] eqn:T; try reflexivity.
+    rewrite number_chain_no_from; [reflexivity|].
+    (* t is a suffix of r *)
+    clear - T Hr. revert y t T. induction r as [|z r IH]; intros y t T; [discriminate|].
+    cbn [number_target] in T. rewrite (Hr z (or_introl eq_refl)) in T. destruct (w_count z).
+    + inversion T; subst. intros x Hx. apply Hr. right. exact Hx.
+    + apply (IH (fun q Hq => Hr q (or_intror Hq)) y t T).
 Qed.
 
 Lemma filter_count_walk_strip : forall l, walk_ok l ->
@@ -309,10 +327,59 @@ Proof.
   - cbn [filter]. destruct (w_count x); [f_equal|]; apply IH; intros y Hy; apply H; right; exact Hy.
 Qed.
 
-Theorem number_any_strip_partial_lemma : forall l, walk_ok l -> (forall x, In x l -> w_from x = false) ->
-  number_any (walk_strip l) = number_any l.
+Theorem number_any_strip_partial_lemma : forall every sf l, walk_ok l -> (forall x, In x l -> w_from x = false) ->
+  number_any_cfg every sf (walk_strip l) = number_any_cfg every sf l.
 Proof.
-  intros l Ok NF. rewrite !number_any_no_from; auto.
+  intros every sf l Ok NF. rewrite !number_any_no_from; auto.
   - rewrite filter_count_walk_strip; auto.
   - intros x Hx. apply NF. unfold walk_strip in Hx. apply filter_In in Hx. tauto.
+Qed.
+
+(* (2) repaired configuration (from on every node of the walk): the count is a function of the visible
+   predecessors only *)
+Definition chain_all (r : list wnode) : nat := number_chain_cfg true 0 r.
+
+Lemma chain_all_depth : forall r d, number_chain_cfg true d r = chain_all r.
+Proof.
+  intros r. unfold chain_all. induction r as [|y r IH]; intros d; [reflexivity|].
+  cbn [number_chain_cfg]. destruct (w_from y); [reflexivity|]. rewrite !(IH (w_depth y)). reflexivity.
+Qed.
+
+Lemma target_chain_all : forall r,
+  match number_target r with Some (x :: t) => S (number_chain_cfg true (w_depth x) t) | _ => 0 end = chain_all r.
+Proof.
+  intros r. induction r as [|y r IH]; [reflexivity|].
+  unfold chain_all. cbn [number_target number_chain_cfg]. destruct (w_from y); [reflexivity|].
+  destruct (w_count y); [rewrite !chain_all_depth; reflexivity|].
+  rewrite IH. rewrite chain_all_depth. reflexivity.
+Qed.
+
+Lemma number_any_repaired_eq : forall sf x r,
+  number_any_cfg true sf (x :: r) =
+  if sf && w_from x then 0 else if w_count x then S (chain_all r) else chain_all r.
+Proof.
+  intros sf x r. unfold number_any_cfg. cbn [number_target_cfg].
+  destruct (sf && w_from x); [reflexivity|]. destruct (w_count x); [rewrite chain_all_depth; reflexivity|].
+  apply target_chain_all.
+Qed.
+
+Lemma chain_all_cons : forall y r,
+  chain_all (y :: r) = if w_from y then 0 else if w_count y then S (chain_all r) else chain_all r.
+Proof. intros. unfold chain_all at 1. cbn [number_chain_cfg]. rewrite !chain_all_depth. reflexivity. Qed.
+
+Lemma chain_all_strip : forall r, walk_ok r -> chain_all (walk_strip r) = chain_all r.
+Proof.
+  intros r. induction r as [|y r IH]; intros Ok; [reflexivity|].
+  assert (Okr : walk_ok r) by (intros q Hq; apply Ok; right; exact Hq).
+  unfold walk_strip. cbn [filter]. fold (walk_strip r). destruct (w_stripped y) eqn:S; cbn [negb].
+  - destruct (Ok y (or_introl eq_refl) S) as [F C]. rewrite (chain_all_cons y r), F, C. apply IH; exact Okr.
+  - rewrite !chain_all_cons. rewrite (IH Okr). reflexivity.
+Qed.
+
+Theorem number_any_repaired_strip : forall sf x r, walk_ok (x :: r) -> w_stripped x = false ->
+  number_any_cfg true sf (walk_strip (x :: r)) = number_any_cfg true sf (x :: r).
+Proof.
+  intros sf x r Ok V. unfold walk_strip. cbn [filter]. rewrite V. cbn [negb]. fold (walk_strip r).
+  rewrite !number_any_repaired_eq. rewrite chain_all_strip; [reflexivity|].
+  intros q Hq. apply Ok. right. exact Hq.
 Qed.
